@@ -640,7 +640,10 @@ def replay_finding(kind, specs, deriv, dtype, finding):
             return [c for y in x for c in flat(y)] if isinstance(x, list) else [x]
         inert_rows = [j for j in range(len(arr)) if arr[j] is None or not any(math.isfinite(c) for c in flat(wit['elements'][j]))]
         wit.update(got=got, expected='False for the inert rows ' + str(inert_rows))
-        return any(got[j] for j in inert_rows), wit
+        offenders = [j for j in inert_rows if got[j]]
+        # every offending row is made of infinities (no NaN-only or missing row involved): the recorded finding 'element of infinities'
+        wit['inert_with_infinity'] = bool(offenders) and all(arr[j] is not None and any(math.isinf(c) for c in flat(wit['elements'][j])) for j in offenders)
+        return bool(offenders), wit
     if quantity == 'sindex':
         src.build_sindex(page_size=2)
         arr = DERIVS[deriv][0](src)
@@ -731,6 +734,8 @@ PROP_OF = {'sindex': 'C04', 'intersects_bounds': 'C01', 'intersects': 'C02', 'bo
 def finding_key(pid, kind, finding, specs=None, wit=None):
     quantity, form, problem, _ = finding
     q = quantity.split('[')[0]
+    if wit is not None and wit.get('inert_with_infinity'):
+        return f"{pid}:element-of-infinities:{wit.get('quantity', q)}:{kind}"
     fm = 'scalar' if 'scalar' in str(form) or 'scalar' in quantity else 'array'
     extra = ''
     if wit is not None:
@@ -876,13 +881,13 @@ def point_intersects_task(skind, sspec, pderiv='identity', sliced_shape=False, t
     return out
 
 
-def point_intersects_inert_task(skind, sspec, timeout=120, seed=0):
+def point_intersects_inert_task(skind, sspec, timeout=120, seed=0, flags='nan'):
     """C17: an element without any finite coordinate (all NaN) never satisfies PointArray.intersects - neither as a point
     of the array nor as the shape.  Coordinates carry NaN flags; every element is all-finite or all-NaN; array,
     inds and scalar forms."""
     t0 = time.time()
     values.set_mul_mode('uf')
-    ts = T.TagSpace(sort='int', flags='nan')
+    ts = T.TagSpace(sort='int', flags=flags)
     parr, _ = T.build_array(ts, 'point', ['P', None, 'P'])
     sarr, _ = T.build_array(ts, skind, [sspec])
     shape = sarr[0]
@@ -980,7 +985,11 @@ def replay_point_intersects_inert(skind, sspec, finding):
         if x is None:
             return None
         i = (int(x) - T.TAG_BASE) // T.TAG_STEP
-        return float('nan') if (model or {}).get(f't{i}_nan') else float(vals[i])
+        if (model or {}).get(f't{i}_nan'):
+            return float('nan')
+        if (model or {}).get(f't{i}_inf'):
+            return float('inf') * (model or {})[f't{i}_inf']
+        return float(vals[i])
     parr = sg.PointArray([sub(e) for e in ppy], dtype='float64')
     sarr = T.array_class(skind)([sub(e) for e in spy], dtype='float64')
     shape = sarr[0]
@@ -998,9 +1007,13 @@ def replay_point_intersects_inert(skind, sspec, finding):
         wit['got'] = f'raises {type(e).__name__}: {str(e)[:160]}'
         return True, wit
     wit.update(got=got, expected=f"False wherever the point is inert {p_inert} or the shape is inert ({s_inert})")
-    bad = any(v and (s_inert or p_inert[j]) for j, v in enumerate(got['array'])) or any(v and (s_inert or p_inert[j]) for j, v in enumerate(got['scalar'])) \
-        or any(v and (s_inert or p_inert[j]) for v, j in zip(got['inds[2,0,1]'], [2, 0, 1]))
-    return bad, wit
+    hits = [j for j, v in enumerate(got['array']) if v and (s_inert or p_inert[j])] + [j for j, v in enumerate(got['scalar']) if v and (s_inert or p_inert[j])] \
+        + [j for v, j in zip(got['inds[2,0,1]'], [2, 0, 1]) if v and (s_inert or p_inert[j])]
+    # finding 'element of infinities': every inert operand involved in a hit contains an infinity (no NaN-only / missing operand)
+    def has_inf(x):
+        return x is not None and any(math.isinf(c) for c in flat(x))
+    wit['inert_with_infinity'] = bool(hits) and all((has_inf(sub(spy[0])) if s_inert else True) and (has_inf(sub(ppy[j])) if p_inert[j] else True) for j in hits)
+    return bool(hits), wit
 
 
 def run_point_intersects_inert(check, pool, Task, pid='C17'):
@@ -1008,6 +1021,10 @@ def run_point_intersects_inert(check, pool, Task, pid='C17'):
     for skind, sspec in (('point', 'P'), ('multipoint', 2), ('line', 2), ('line', 3), ('multiline', [2, 2]), ('polygon', [3]), ('multipolygon', [[3]])):
         nm = f"inert: PointArray.intersects({skind} {sspec}) with all-NaN points / shape"
         tasks.append(Task(nm, point_intersects_inert_task, (skind, sspec), {'seed': check.seed}, timeout=600, meta={'skind': skind, 'sspec': sspec}))
+    # coordinates may also be infinite: an element made of infinities has no finite coordinate either
+    for skind, sspec in (('point', 'P'), ('line', 2)) + ((('multipoint', 2), ('polygon', [3])) if check.tier == 'thorough' else ()):
+        nm = f"inert: PointArray.intersects({skind} {sspec}) with points / shape of NaN and infinite coordinates"
+        tasks.append(Task(nm, point_intersects_inert_task, (skind, sspec), {'seed': check.seed, 'flags': True}, timeout=600, meta={'skind': skind, 'sspec': sspec, 'inf': True}))
     res = pool(tasks)
     for t in tasks:
         r = res.get(t.name, {'status': 'error', 'detail': 'no result'})
@@ -1022,7 +1039,8 @@ def run_point_intersects_inert(check, pool, Task, pid='C17'):
                     check.harness_error(f"replay of {t.name} failed: {type(e).__name__}: {e}\n{traceback.format_exc()[-600:]}")
                     continue
                 if bad:
-                    outcome.append(check.violation(f"{pid}:point-intersects-inert:{m['skind']}", f"PointArray.intersects({m['skind']}) is True for an element without finite coordinates: "
+                    key = f"{pid}:element-of-infinities:intersects:{m['skind']}" if wit.get('inert_with_infinity') else f"{pid}:point-intersects-inert:{m['skind']}"
+                    outcome.append(check.violation(key, f"PointArray.intersects({m['skind']}) is True for an element without finite coordinates: "
                                                    f"points {wit['points']} shape {wit['shape']} -> {wit.get('got')}", wit))
                 else:
                     outcome.append('spurious')
